@@ -1031,10 +1031,11 @@ theorem lin_step (s : State) (a : Act) (hi : Inv s) :
     by_cases hc : (s.freshList hids && decide (s.order.length ≤ hids.length)) = true
     · rw [if_pos hc]
       simp only [Bool.and_eq_true] at hc
-      simp only [expire, hi.notWedged, Bool.false_eq_true, ↓reduceIte]
+      simp only [expireAt, hi.notWedged, Bool.false_eq_true, ↓reduceIte]
       split
       · simp [scanEvs, applyEvs]
-      · obtain ⟨new, e1, e2⟩ := lin_expireLoop s.order s hids (s.now - d) [] hi (freshL_of s hids hc.1)
+      · rename_i c
+        obtain ⟨new, e1, e2⟩ := lin_expireLoop s.order s hids c [] hi (freshL_of s hids hc.1)
         simp only [List.reverse_nil, List.nil_append] at e1
         simp only [scanEvs]
         rw [e1]; exact e2
